@@ -1,5 +1,7 @@
 pub mod c02;
+pub mod c03;
 pub mod c06;
+pub mod c07;
 pub mod c10;
 pub mod c11;
 pub mod c12;
@@ -12,7 +14,9 @@ use crate::run::PartDyn;
 pub fn parts_for(property: &str) -> Option<Vec<Box<dyn PartDyn>>> {
     Some(match property {
         "C02" => c02::parts(),
+        "C03" => c03::parts(),
         "C06" => c06::parts(),
+        "C07" => c07::parts(),
         "C10" => c10::parts(),
         "C11" => c11::parts(),
         "C12" => c12::parts(),
@@ -23,4 +27,4 @@ pub fn parts_for(property: &str) -> Option<Vec<Box<dyn PartDyn>>> {
     })
 }
 
-pub const ALL: &[&str] = &["C02", "C06", "C10", "C11", "C12", "C14", "C15", "C19"];
+pub const ALL: &[&str] = &["C02", "C03", "C06", "C07", "C10", "C11", "C12", "C14", "C15", "C19"];
